@@ -947,7 +947,9 @@ def _sum_of(E, fv, st, v, node, prog):
         sd = E.db.specs.get("BCOUNT")
         if sd is None:
             _err("spec BCOUNT missing")
-        return E.spec_app(fv, st, sd, [v, SInt(0), SInt(shp[0])])
+        r_ = E.spec_app(fv, st, sd, [v, SInt(0), SInt(shp[0])])
+        st.assume(z3.And(r_.e >= 0, r_.e <= shp[0]))  # lemma_bcount_range
+        return r_
     sd = E.db.specs.get("ISUM")
     if sd is None:
         _err("spec ISUM missing")
@@ -1141,6 +1143,7 @@ def mask_select(E, fv, st, base, mask, node, prog):
     # ghost names: the mask as an array value and the result, for use in lemmas
     k = sum(1 for x in st.env if x.startswith("msel_mask"))
     st.env["msel_mask%d" % k] = named_mask
+    st.env["msel_res%d" % k] = res
     st.funcs = dict(st.funcs)
     st.funcs["msel_src%d" % k] = srcf
     return res
